@@ -2,6 +2,511 @@ import GV.Model.JSInt
 import GV.Model.Num64
 import GV.Model.NumScheme
 import GV.Spec.Num
+import GV.Proofs.Num
+import GV.Proofs.Num64
+
+/-!
+  GV.Props.C06 — fixed-width integer arithmetic is exact.
+
+  Operands are the canonical JS representatives `x y : Int` with `InRange τ x`; the specification is evaluated on
+  `bv τ x = BitVec.ofInt τ.bits x` (a bijection between in-range integers and bit vectors: `valOf_bv`), so every
+  theorem quantifies over ALL operand values of the type.
+-/
+set_option linter.unusedSimpArgs false
 
 namespace GV.Props.C06
+open GV.JSInt GV.Num64 GV.NumScheme GV.Spec.Num GV.Proofs.Num GV.Proofs.Num64
+
+/-- the value of a type as a bit vector -/
+abbrev bv (τ : ITy) (x : Int) : BitVec τ.bits := BitVec.ofInt τ.bits x
+
+/-- what the specification demands, rendered as an emitted-expression outcome (canonical number, never -0) -/
+def specRes (τ : ITy) (r : Option (BitVec τ.bits)) : Res :=
+  match r with
+  | some v => .ok (.int (valOf τ.signed v))
+  | none => .panic
+
+/-- in-range integers are exactly the values of bit vectors -/
+theorem valOf_bv (τ : ITy) (x : Int) (hx : InRange τ x) : valOf τ.signed (bv τ x) = x := by
+  cases τ <;> simp only [valOf, bv, ITy.signed, BitVec.toInt_ofInt, BitVec.toNat_ofInt, if_true, if_false, Bool.false_eq_true] <;>
+    simp only [InRange, ITy.signed, ITy.bits, Int.bmod_def, Nat.reducePow, Nat.reduceSub, Int.reducePow, Int.reduceNeg, if_true, if_false,
+      Bool.false_eq_true, Int.cast_ofNat_Int] at * <;> omega
+
+theorem valOf_inRange (τ : ITy) (a : BitVec τ.bits) : InRange τ (valOf τ.signed a) := by
+  have h1 := a.le_toInt; have h2 := a.toInt_lt; have h3 := a.isLt
+  cases τ <;> simp only [InRange, valOf, ITy.signed, ITy.bits, if_true, if_false, Bool.false_eq_true] at * <;>
+    first | exact ⟨h1, h2⟩ | exact ⟨Int.natCast_nonneg _, by exact_mod_cast h3⟩
+
+theorem bv_valOf (τ : ITy) (a : BitVec τ.bits) : bv τ (valOf τ.signed a) = a := by
+  cases τ <;> simp [bv, valOf, ITy.signed]
+
+set_option hygiene false in
+/-- normalisation used by the per-operator proofs: spec side to integer arithmetic via the `BitVec` lemmas
+    (phase 1, widths still symbolic), then scheme side and numerals (phase 2). Expects `ex ey hx hy`. -/
+macro "c06_norm" : tactic => `(tactic| (
+  simp only [bv, valOf, ITy.signed, if_true, if_false, Bool.false_eq_true, reduceIte] at ex ey
+  simp only [schemeBin, schemeUn, specBin, specUn, specRes, bv, valOf, ITy.signed, BitVec.toInt_add, BitVec.toInt_sub, BitVec.toInt_mul,
+    BitVec.toInt_neg, BitVec.toNat_add, BitVec.toNat_sub, BitVec.toNat_mul, BitVec.toNat_neg, BitVec.toInt_not, BitVec.toNat_not,
+    if_true, if_false, Bool.false_eq_true, reduceIte,
+    Int.natCast_add, Int.natCast_mul, Int.natCast_emod, imul_eq, mul_toInt, ex, ey]
+  simp only [InRange, ITy.signed, ITy.bits, fixNumber, fix8s, fix8u, fix16s,
+    fix16u, fix32s, fix32u, Int.bmod_def, toInt32, toUint32, bnot, Res.ok.injEq, JSNum.int.injEq,
+    Nat.reducePow, Nat.reduceSub,
+    Nat.reduceAdd, Nat.reduceDiv, Int.reducePow, Int.reduceNeg, if_true, if_false, Bool.false_eq_true, reduceIte,
+    Int.natCast_pow, Int.cast_ofNat_Int] at *))
+
+/-! ### Binary arithmetic -/
+
+theorem add_correct (τ : ITy) (x y : Int) (hx : InRange τ x) (hy : InRange τ y) :
+    schemeBin τ .add x y = specRes τ (specBin τ.signed .add (bv τ x) (bv τ y)) := by
+  have ex := valOf_bv τ x hx; have ey := valOf_bv τ y hy
+  cases τ <;> c06_norm <;> omega
+
+theorem sub_correct (τ : ITy) (x y : Int) (hx : InRange τ x) (hy : InRange τ y) :
+    schemeBin τ .sub x y = specRes τ (specBin τ.signed .sub (bv τ x) (bv τ y)) := by
+  have ex := valOf_bv τ x hx; have ey := valOf_bv τ y hy
+  cases τ <;> c06_norm <;> omega
+
+theorem mul_correct (τ : ITy) (x y : Int) (hx : InRange τ x) (hy : InRange τ y) :
+    schemeBin τ .mul x y = specRes τ (specBin τ.signed .mul (bv τ x) (bv τ y)) := by
+  have ex := valOf_bv τ x hx; have ey := valOf_bv τ y hy
+  cases τ <;> c06_norm <;> omega
+
+/-! ### Division and remainder -/
+
+theorem bv_eq_zero (τ : ITy) (y : Int) (hy : InRange τ y) : bv τ y = 0 ↔ y = 0 := by
+  constructor
+  · intro h
+    have := valOf_bv τ y hy
+    rw [h] at this
+    cases τ <;> simpa [valOf, ITy.signed] using this.symm
+  · intro h; subst h; cases τ <;> simp [bv]
+
+theorem tdiv_range (x y B : Int) (hx : -B ≤ x ∧ x < B) (hne : ¬(x = -B ∧ y = -1)) :
+    -B ≤ x.tdiv y ∧ x.tdiv y < B := by
+  have hb := tdiv_bounds x y
+  refine ⟨by omega, ?_⟩
+  by_cases hq : x.tdiv y = B
+  · exfalso
+    have hxB : x = -B := by omega
+    have hna : (x.tdiv y).natAbs = x.natAbs := by omega
+    rcases tdiv_natAbs_eq x y hna (by omega) with h1 | h1
+    · rw [h1, Int.tdiv_one] at hq; omega
+    · exact hne ⟨hxB, h1⟩
+  · omega
+
+theorem unsigned_range (τ : ITy) (x : Int) (hs : τ.signed = false) (hx : InRange τ x) : 0 ≤ x ∧ x < 4294967296 := by
+  cases τ <;> simp only [ITy.signed] at hs <;> try cases hs
+  all_goals (simp only [InRange, ITy.signed, ITy.bits, Bool.false_eq_true, if_false, Nat.reducePow, Int.reducePow] at hx; omega)
+
+theorem signed_range (τ : ITy) (x : Int) (hs : τ.signed = true) (hx : InRange τ x) : -2147483648 ≤ x ∧ x < 2147483648 := by
+  cases τ <;> simp only [ITy.signed] at hs <;> try cases hs
+  all_goals (simp only [InRange, ITy.signed, ITy.bits, if_true, Nat.reducePow, Nat.reduceSub, Int.reducePow] at hx; omega)
+
+/-- operand pairs on which the emitted `/` is wrong today (DESIGN.md section 7): int8/int16 `MIN / -1` -/
+def QuoExcluded (τ : ITy) (x y : Int) : Prop :=
+  (τ = .int8 ∨ τ = .int16) ∧ x = -(2 ^ (τ.bits - 1) : Int) ∧ y = -1
+
+instance (τ : ITy) (x y : Int) : Decidable (QuoExcluded τ x y) := by unfold QuoExcluded; exact inferInstance
+
+theorem quo_correct_partial (τ : ITy) (x y : Int) (hx : InRange τ x) (hy : InRange τ y) (hex : ¬ QuoExcluded τ x y) :
+    schemeBin τ .quo x y = specRes τ (specBin τ.signed .quo (bv τ x) (bv τ y)) := by
+  have ex := valOf_bv τ x hx; have ey := valOf_bv τ y hy
+  have hz := bv_eq_zero τ y hy
+  by_cases hy0 : y = 0
+  · subst hy0
+    have hb : bv τ 0 = 0 := hz.2 rfl
+    simp only [schemeBin, JSInt.div, specBin, hb, specRes, if_true]
+  · have hb : ¬ bv τ y = 0 := fun h => hy0 (hz.1 h)
+    simp only [schemeBin, JSInt.div, hy0, specBin, hb, specRes, if_false]
+    cases hs : τ.signed
+    · -- unsigned: Nat division
+      have hx0 : 0 ≤ x := (unsigned_range τ x hs hx).1
+      have hy1 : 0 < y := by have := (unsigned_range τ y hs hy).1; omega
+      simp only [hs, valOf, if_false, Bool.false_eq_true, reduceIte] at ex ey ⊢
+      rw [BitVec.toNat_udiv, Int.natCast_ediv, ex, ey, Int.tdiv_eq_ediv_of_nonneg hx0, fix32u]
+      have h1 : 0 ≤ x / y := Int.ediv_nonneg hx0 (by omega)
+      have h2 : x / y ≤ x := Int.ediv_le_self y hx0
+      have h3 : x < 4294967296 := (unsigned_range τ x hs hx).2
+      rw [toUint32_id ⟨h1, by omega⟩]
+    · simp only [hs, valOf, if_true, reduceIte] at ex ey ⊢
+      rw [BitVec.toInt_sdiv, ex, ey, fix32s]
+      cases τ <;> simp only [ITy.signed] at hs <;> try cases hs
+      · have := tdiv_range x y 128 (by simpa [InRange, ITy.signed, ITy.bits] using hx) (by intro h; exact hex ⟨Or.inl rfl, by simpa [ITy.bits] using h.1, h.2⟩)
+        simp only [ITy.bits, Int.bmod_def, toInt32, Nat.reducePow, Res.ok.injEq, JSNum.int.injEq]; omega
+      · have := tdiv_range x y 32768 (by simpa [InRange, ITy.signed, ITy.bits] using hx) (by intro h; exact hex ⟨Or.inr rfl, by simpa [ITy.bits] using h.1, h.2⟩)
+        simp only [ITy.bits, Int.bmod_def, toInt32, Nat.reducePow, Res.ok.injEq, JSNum.int.injEq]; omega
+      · simp only [ITy.bits, toInt32_eq_bmod]
+      · simp only [ITy.bits, toInt32_eq_bmod]
+
+/-- operand pairs on which the emitted `%` is wrong today: negative dividend, zero result (JS gives -0) -/
+def RemExcluded (x y : Int) : Prop := x < 0 ∧ Int.tmod x y = 0
+
+instance (x y : Int) : Decidable (RemExcluded x y) := by unfold RemExcluded; exact inferInstance
+
+theorem rem_correct_partial (τ : ITy) (x y : Int) (hx : InRange τ x) (hy : InRange τ y) (hex : ¬ RemExcluded x y) :
+    schemeBin τ .rem x y = specRes τ (specBin τ.signed .rem (bv τ x) (bv τ y)) := by
+  have ex := valOf_bv τ x hx; have ey := valOf_bv τ y hy
+  have hz := bv_eq_zero τ y hy
+  by_cases hy0 : y = 0
+  · subst hy0
+    have hb : bv τ 0 = 0 := hz.2 rfl
+    simp only [schemeBin, JSInt.rem, specBin, hb, specRes, if_true]
+  · have hb : ¬ bv τ y = 0 := fun h => hy0 (hz.1 h)
+    have hne : ¬ (Int.tmod x y = 0 ∧ x < 0) := fun h => hex ⟨h.2, h.1⟩
+    simp only [schemeBin, JSInt.rem, hy0, hne, specBin, hb, specRes, if_false]
+    cases hs : τ.signed
+    · have hx0 : 0 ≤ x := (unsigned_range τ x hs hx).1
+      simp only [hs, valOf, if_false, Bool.false_eq_true, reduceIte] at ex ey ⊢
+      rw [BitVec.toNat_umod, Int.natCast_emod, ex, ey, Int.tmod_eq_emod_of_nonneg hx0]
+    · simp only [hs, valOf, if_true, reduceIte] at ex ey ⊢
+      rw [BitVec.toInt_srem, ex, ey]
+
+/-! ### Unary operators -/
+
+theorem toNat_bv (τ : ITy) (x : Int) : ((bv τ x).toNat : Int) = x % (2 ^ τ.bits : Nat) := by
+  simp only [bv, BitVec.toNat_ofInt]
+  exact Int.toNat_of_nonneg (Int.emod_nonneg _ (by have := Nat.two_pow_pos τ.bits; omega))
+
+theorem neg_toInt (x : Int) : (JSInt.neg x).toInt = -x := by
+  unfold JSInt.neg; split
+  · next h => subst h; rfl
+  · rfl
+
+/-- operands on which the emitted unary minus is wrong today: signed types at 0 (JS -0) and at the minimum (not wrapped) -/
+def NegExcluded (τ : ITy) (x : Int) : Prop :=
+  τ.signed = true ∧ (x = 0 ∨ x = -(2 ^ (τ.bits - 1) : Int))
+
+instance (τ : ITy) (x : Int) : Decidable (NegExcluded τ x) := by unfold NegExcluded; exact inferInstance
+
+theorem neg_correct_partial (τ : ITy) (x : Int) (hx : InRange τ x) (hex : ¬ NegExcluded τ x) :
+    schemeUn τ .neg x = .int (valOf τ.signed (specUn .neg (bv τ x))) := by
+  have ex := valOf_bv τ x hx
+  cases τ <;>
+    simp only [bv, valOf, ITy.signed, if_true, if_false, Bool.false_eq_true, reduceIte] at ex <;>
+    simp only [schemeUn, specUn, bv, valOf, ITy.signed, BitVec.toInt_neg, BitVec.toNat_neg, if_true, if_false, Bool.false_eq_true, reduceIte,
+      Int.natCast_emod, neg_toInt, ex] <;>
+    simp only [NegExcluded, InRange, ITy.signed, ITy.bits, fixNumber, fix8u, fix16u, fix32u, Int.bmod_def, toUint32, JSNum.int.injEq, JSInt.neg,
+      Nat.reducePow, Nat.reduceSub, Nat.reduceAdd, Nat.reduceDiv, Int.reducePow, Int.reduceNeg, if_true, if_false, Bool.false_eq_true,
+      reduceIte, Int.cast_ofNat_Int, true_and, false_and, not_false_eq_true, not_or] at * <;>
+    first
+      | (rw [if_neg hex.1]; simp only [JSNum.int.injEq]; omega)
+      | omega
+
+theorem not_correct (τ : ITy) (x : Int) (hx : InRange τ x) :
+    schemeUn τ .not x = .int (valOf τ.signed (specUn .not (bv τ x))) := by
+  have ex := valOf_bv τ x hx
+  have en := toNat_bv τ x
+  cases τ <;>
+    simp only [bv, valOf, ITy.signed, if_true, if_false, Bool.false_eq_true, reduceIte] at ex en <;>
+    simp only [schemeUn, specUn, bv, valOf, ITy.signed, BitVec.toInt_not, BitVec.toNat_not, if_true, if_false, Bool.false_eq_true, reduceIte, en] <;>
+    simp only [InRange, ITy.signed, ITy.bits, fixNumber, fix8s, fix8u, fix16s, fix16u, fix32s, fix32u, Int.bmod_def, toInt32, toUint32, bnot,
+      JSNum.int.injEq, Nat.reducePow, Nat.reduceSub, Nat.reduceAdd, Nat.reduceDiv, Int.reducePow, Int.reduceNeg, if_true, if_false,
+      Bool.false_eq_true, reduceIte, Int.cast_ofNat_Int] at * <;>
+    omega
+
+/-! ### fixNumber, conversions, comparisons -/
+
+/-- the value range wrap of a type -/
+def wrap (τ : ITy) (v : Int) : Int := if τ.signed then v.bmod (2 ^ τ.bits) else v % (2 ^ τ.bits : Nat)
+
+/-- `fixNumber` (expressions.go:1363-1384) is the two's-complement wrap, for EVERY integer argument -/
+theorem fixNumber_wrap (τ : ITy) (v : Int) : fixNumber τ v = wrap τ v := by
+  cases τ <;>
+    simp only [wrap, fixNumber, fix8s, fix8u, fix16s, fix16u, fix32s, fix32u, ITy.signed, ITy.bits, Int.bmod_def, toInt32, toUint32,
+      Nat.reducePow, Nat.reduceAdd, Nat.reduceDiv, if_true, if_false, Bool.false_eq_true, reduceIte, Int.cast_ofNat_Int] <;>
+    omega
+
+theorem wrap_inRange (τ : ITy) (v : Int) : InRange τ (wrap τ v) := by
+  cases τ <;>
+    simp only [wrap, InRange, ITy.signed, ITy.bits, Int.bmod_def, Nat.reducePow, Nat.reduceSub, Nat.reduceAdd, Nat.reduceDiv, Int.reducePow,
+      Int.reduceNeg, if_true, if_false, Bool.false_eq_true, reduceIte, Int.cast_ofNat_Int] <;>
+    omega
+
+theorem valOf_ofInt (τ : ITy) (v : Int) : valOf τ.signed (BitVec.ofInt τ.bits v) = wrap τ v := by
+  cases hs : τ.signed
+  · simp only [valOf, wrap, hs, Bool.false_eq_true, if_false, BitVec.toNat_ofInt]
+    exact Int.toNat_of_nonneg (Int.emod_nonneg _ (by have := Nat.two_pow_pos τ.bits; omega))
+  · simp only [valOf, wrap, hs, if_true, BitVec.toInt_ofInt]
+
+/-- conversions between the non-64-bit integer types: truncate / sign-extend / zero-extend (every ordered pair) -/
+theorem conv_correct (src dst : ITy) (x : Int) (hx : InRange src x) :
+    conv dst x = valOf dst.signed (specConv src.signed (bv src x) dst.bits) := by
+  have ex := valOf_bv src x hx
+  rw [conv, fixNumber_wrap]
+  cases hs : src.signed
+  · simp only [hs, valOf, Bool.false_eq_true, if_false] at ex
+    simp only [specConv, hs, Bool.false_eq_true, if_false]
+    cases hd : dst.signed
+    · simp only [valOf, wrap, hd, Bool.false_eq_true, if_false, BitVec.toNat_setWidth, Int.natCast_emod, ex, Int.natCast_pow]
+    · simp only [valOf, wrap, hd, if_true, BitVec.toInt_setWidth, ex]
+  · simp only [hs, valOf, if_true] at ex
+    simp only [specConv, hs, if_true, BitVec.signExtend, ex]
+    exact (valOf_ofInt dst x).symm
+
+/-- comparisons: `===`, `<`, … on the canonical representatives decide the Go comparison -/
+theorem cmp_correct (τ : ITy) (op : CmpOp) (x y : Int) (hx : InRange τ x) (hy : InRange τ y) :
+    schemeCmp op x y = specCmp τ.signed op (bv τ x) (bv τ y) := by
+  have ex := valOf_bv τ x hx; have ey := valOf_bv τ y hy
+  have hne : (bv τ x = bv τ y) ↔ x = y := ⟨fun h => by rw [← ex, ← ey, h], fun h => by rw [h]⟩
+  have hbeq : (bv τ x == bv τ y) = decide (x = y) := by
+    by_cases h : x = y
+    · simp [h]
+    · have : ¬ bv τ x = bv τ y := fun h' => h (hne.1 h')
+      simp [h, this]
+  cases hs : τ.signed <;> simp only [hs, valOf, Bool.false_eq_true, if_false, if_true] at ex ey
+  · have hx0 := (unsigned_range τ x hs hx).1; have hy0 := (unsigned_range τ y hs hy).1
+    have e1 : ((bv τ x).toNat < (bv τ y).toNat) ↔ x < y := by omega
+    have e2 : ((bv τ x).toNat ≤ (bv τ y).toNat) ↔ x ≤ y := by omega
+    have e3 : ((bv τ y).toNat < (bv τ x).toNat) ↔ y < x := by omega
+    have e4 : ((bv τ y).toNat ≤ (bv τ x).toNat) ↔ y ≤ x := by omega
+    cases op <;> simp only [schemeCmp, specCmp, hs, Bool.false_eq_true, if_false, BitVec.ult, BitVec.ule, bne, hbeq, e1, e2, e3, e4,
+      GT.gt, GE.ge]
+  · cases op <;> simp only [schemeCmp, specCmp, hs, if_true, BitVec.slt, BitVec.sle, bne, hbeq, ex, ey, GT.gt, GE.ge]
+
+/-! ### Assembly: `scheme_correct`, the proved negations of its full-strength form, `repr_inv`, `exact_doubles` -/
+
+/-- the arithmetic operators whose scheme is proved against the spec below; the bitwise operators and the shifts are
+    stated (`bitwise_correct_full`, `shift_correct_full`) but NOT claimed — they are covered by the differential runs only -/
+def isArith : BinOp → Bool
+  | .add | .sub | .mul | .quo | .rem => true
+  | _ => false
+
+/-- operand sets on which the emitted code is wrong today (each witnessed by a proved counterexample below) -/
+def BinExcluded (τ : ITy) (op : BinOp) (x y : Int) : Prop :=
+  (op = .quo ∧ QuoExcluded τ x y) ∨ (op = .rem ∧ RemExcluded x y)
+
+instance (τ : ITy) (op : BinOp) (x y : Int) : Decidable (BinExcluded τ op x y) := by unfold BinExcluded; exact inferInstance
+
+/-- FULL-STRENGTH statement (not claimed; false today, see the counterexamples) -/
+def scheme_correct_full : Prop :=
+  ∀ (τ : ITy) (op : BinOp) (x y : Int), InRange τ x → InRange τ y →
+    schemeBin τ op x y = specRes τ (specBin τ.signed op (bv τ x) (bv τ y))
+
+/-- `int8(-128) / int8(-1)`: the scheme yields 128, the spec -128 (DESIGN.md section 7) -/
+theorem quo_min_counterexample : ¬ scheme_correct_full := fun h => by
+  have := h .int8 .quo (-128) (-1) (by decide) (by decide)
+  revert this; decide
+
+/-- `int32(-4) % 2`: the scheme yields JS `-0`, the spec 0 -/
+theorem rem_negzero_counterexample : ¬ scheme_correct_full := fun h => by
+  have := h .int32 .rem (-4) 2 (by decide) (by decide)
+  revert this; decide
+
+/-- the strongest provable form for + - * / %: all types, all in-range operands outside the two defect classes -/
+theorem scheme_correct_partial (τ : ITy) (op : BinOp) (x y : Int) (hx : InRange τ x) (hy : InRange τ y)
+    (hop : isArith op = true) (hex : ¬ BinExcluded τ op x y) :
+    schemeBin τ op x y = specRes τ (specBin τ.signed op (bv τ x) (bv τ y)) := by
+  cases op <;> simp only [isArith] at hop <;> try cases hop
+  · exact add_correct τ x y hx hy
+  · exact sub_correct τ x y hx hy
+  · exact mul_correct τ x y hx hy
+  · exact quo_correct_partial τ x y hx hy (fun h => hex (Or.inl ⟨rfl, h⟩))
+  · exact rem_correct_partial τ x y hx hy (fun h => hex (Or.inr ⟨rfl, h⟩))
+
+/-- the hypothesis of `scheme_correct_partial` is satisfiable by non-trivial operands (a wrapping product, a negative quotient) -/
+example : ¬ BinExcluded .int8 .mul 100 100 ∧ ¬ BinExcluded .int16 .quo (-32768) 3 ∧ ¬ BinExcluded .int32 .rem (-7) 2 := by decide
+
+/-- FULL-STRENGTH unary statement (not claimed) -/
+def scheme_un_correct_full : Prop :=
+  ∀ (τ : ITy) (op : UnOp) (x : Int), InRange τ x → schemeUn τ op x = .int (valOf τ.signed (specUn op (bv τ x)))
+
+/-- `-int32(MinInt32)`: the scheme yields 2147483648 (outside the type), the spec wraps to MinInt32 -/
+theorem neg_min_counterexample : ¬ scheme_un_correct_full := fun h => by
+  have := h .int32 .neg (-2147483648) (by decide)
+  revert this; decide
+
+/-- `-int8(0)`: the scheme yields JS `-0` -/
+theorem neg_zero_counterexample : ¬ scheme_un_correct_full := fun h => by
+  have := h .int8 .neg 0 (by decide)
+  revert this; decide
+
+theorem scheme_un_correct_partial (τ : ITy) (op : UnOp) (x : Int) (hx : InRange τ x) (hex : op = .neg → ¬ NegExcluded τ x) :
+    schemeUn τ op x = .int (valOf τ.signed (specUn op (bv τ x))) := by
+  cases op
+  · exact neg_correct_partial τ x hx (hex rfl)
+  · exact not_correct τ x hx
+
+example : ¬ NegExcluded .int8 (-127) ∧ ¬ NegExcluded .uint32 0 ∧ ¬ NegExcluded .int32 2147483647 := by decide
+
+/-- FULL-STRENGTH shift statement (NOT claimed: false for constant counts ≥ 32 on negative signed operands and for
+    negative counts; the remaining cases are not proved here, only sampled) -/
+def shift_correct_full : Prop :=
+  ∀ (τ : ITy) (op : ShOp) (c : Bool) (x n : Int), InRange τ x →
+    some (schemeShift τ op c x n) = (specShiftInt τ.signed op (bv τ x) n).map (valOf τ.signed)
+
+/-- `int8(-1) >> 32` with a constant count is folded to 0; Go gives -1 -/
+theorem shr_const_count_counterexample : ¬ shift_correct_full := fun h => by
+  have := h .int8 .shr true (-1) 32 (by decide)
+  revert this; decide
+
+/-- `int32(1) << n` with `n = -1` computes -2147483648 instead of panicking -/
+theorem shift_negative_count_counterexample : ¬ shift_correct_full := fun h => by
+  have := h .int32 .shl false 1 (-1) (by decide)
+  revert this; decide
+
+/-- FULL-STRENGTH statement for & | ^ &^ (NOT claimed, not proved: covered by the exhaustive 8-bit and grid runs) -/
+def bitwise_correct_full : Prop :=
+  ∀ (τ : ITy) (op : BinOp) (x y : Int), isArith op = false → InRange τ x → InRange τ y →
+    schemeBin τ op x y = specRes τ (specBin τ.signed op (bv τ x) (bv τ y))
+
+/-- canonical-representative invariant: an outcome is a panic or a number in the range of the type that is not `-0` -/
+def Canonical (τ : ITy) : Res → Prop
+  | .ok (.int v) => InRange τ v
+  | .ok .negZero => False
+  | .panic => True
+
+instance (τ : ITy) (r : Res) : Decidable (Canonical τ r) := by
+  cases r with
+  | panic => exact isTrue trivial
+  | ok v => cases v with
+    | int v => unfold Canonical; exact inferInstance
+    | negZero => exact isFalse (fun h => h)
+
+theorem specRes_canonical (τ : ITy) (r : Option (BitVec τ.bits)) : Canonical τ (specRes τ r) := by
+  cases r with
+  | none => trivial
+  | some v => exact valOf_inRange τ v
+
+/-- `repr_inv`: results of + - * / % (outside the defect classes), of unary operators and of conversions are canonical
+    representatives again, so they can be operands of the next operation (all three operand shapes) -/
+theorem repr_inv (τ : ITy) (op : BinOp) (x y : Int) (hx : InRange τ x) (hy : InRange τ y)
+    (hop : isArith op = true) (hex : ¬ BinExcluded τ op x y) : Canonical τ (schemeBin τ op x y) := by
+  rw [scheme_correct_partial τ op x y hx hy hop hex]; exact specRes_canonical τ _
+
+theorem repr_inv_un (τ : ITy) (op : UnOp) (x : Int) (hx : InRange τ x) (hex : op = .neg → ¬ NegExcluded τ x) :
+    Canonical τ (.ok (schemeUn τ op x)) := by
+  rw [scheme_un_correct_partial τ op x hx hex]; exact valOf_inRange τ _
+
+theorem repr_inv_conv (dst : ITy) (x : Int) : InRange dst (conv dst x) := by
+  rw [conv, fixNumber_wrap]; exact wrap_inRange dst x
+
+/-- `fixNumber` yields a canonical representative for EVERY integer argument (so every scheme that ends in a
+    fix-up — all shifts, `^`, `&^`, `+`, `-`, 8/16-bit `*` — returns an in-range number, never `-0`) -/
+theorem repr_inv_fixNumber (τ : ITy) (v : Int) : InRange τ (fixNumber τ v) := by
+  rw [fixNumber_wrap]; exact wrap_inRange τ v
+
+/-- the invariant fails without the exclusions: the witnesses above leave the range or produce `-0` -/
+theorem repr_inv_counterexample :
+    ¬ Canonical .int8 (schemeBin .int8 .quo (-128) (-1)) ∧ ¬ Canonical .int32 (schemeBin .int32 .rem (-4) 2) ∧
+    ¬ Canonical .int16 (.ok (schemeUn .int16 .neg (-32768))) ∧ ¬ Canonical .int (.ok (schemeUn .int .neg 0)) := by decide
+
+/-- `exact_doubles`: every intermediate JS number of every binary scheme, on in-range operands, is an integer of
+    magnitude ≤ 2^53 (so IEEE double arithmetic is exact on it) -/
+theorem exact_doubles (τ : ITy) (op : BinOp) (x y : Int) (hx : InRange τ x) (hy : InRange τ y) :
+    ∀ v ∈ schemeBinInter τ op x y, -two53 ≤ v ∧ v ≤ two53 := by
+  have h32 : -2147483648 ≤ x ∧ x < 4294967296 ∧ -2147483648 ≤ y ∧ y < 4294967296 := by
+    cases hs : τ.signed
+    · have := unsigned_range τ x hs hx; have := unsigned_range τ y hs hy; omega
+    · have := signed_range τ x hs hx; have := signed_range τ y hs hy; omega
+  have hi32 : ∀ v, -two53 ≤ toInt32 v ∧ toInt32 v ≤ two53 := fun v => by
+    have := toInt32_range v; unfold two53; omega
+  intro v hv
+  cases op <;> simp only [schemeBinInter] at hv
+  · simp only [List.mem_singleton] at hv; subst hv; unfold two53; omega
+  · simp only [List.mem_singleton] at hv; subst hv; unfold two53; omega
+  · -- mul: 8/16-bit products are < 2^32; 32-bit products go through Math.imul
+    cases τ <;> simp only [List.mem_singleton] at hv <;> subst hv <;>
+      first
+        | exact hi32 _
+        | (simp only [InRange, ITy.signed, ITy.bits, if_true, if_false, Bool.false_eq_true, Nat.reduceSub, Int.reducePow, Int.reduceNeg] at hx hy
+           unfold two53
+           have h1 := Int.mul_le_mul_of_natAbs_le (x := x) (y := y) (s := 65536) (t := 65536) (by omega) (by omega)
+           have h2 := Int.mul_le_mul_of_natAbs_le (x := -x) (y := y) (s := 65536) (t := 65536) (by omega) (by omega)
+           rw [Int.neg_mul] at h2
+           omega)
+  · -- quo
+    by_cases hy0 : y = 0
+    · simp [JSInt.div, hy0] at hv
+    · simp only [JSInt.div, hy0, if_false, List.mem_singleton] at hv; subst hv
+      have := tdiv_bounds x y; unfold two53; omega
+  · -- rem
+    by_cases hy0 : y = 0
+    · simp [JSInt.rem, hy0] at hv
+    · by_cases hz : x.tmod y = 0 ∧ x < 0
+      · simp only [JSInt.rem, hy0, hz, and_self, if_true, if_false, List.mem_singleton, JSNum.toInt] at hv; subst hv; simp [two53]
+      · simp only [JSInt.rem, hy0, hz, if_false, List.mem_singleton, JSNum.toInt] at hv; subst hv
+        have h1 := Int.natAbs_tmod x y
+        have h2 : (x.tmod y).natAbs ≤ x.natAbs := by rw [h1]; exact Nat.mod_le _ _
+        unfold two53; omega
+  · simp only [List.mem_singleton] at hv; rw [hv]; unfold band; exact hi32 _
+  · simp only [List.mem_singleton] at hv; rw [hv]; unfold bor; exact hi32 _
+  · simp only [List.mem_singleton] at hv; rw [hv]; unfold bxor; exact hi32 _
+  · simp only [List.mem_cons, List.mem_singleton, List.not_mem_nil, or_false] at hv
+    rcases hv with hv | hv <;> rw [hv]
+    · have := toInt32_range y; unfold bnot two53; omega
+    · unfold band; exact hi32 _
+
+/-- why `$imul` is needed: the plain product of two 32-bit operands is not an exact double -/
+theorem exact_doubles_plain_mul_fails : ∃ x y : Int, InRange .uint32 x ∧ InRange .uint32 y ∧ ¬ (x * y ≤ two53) :=
+  ⟨4294967295, 4294967295, by decide, by decide, by decide⟩
+
+/-! ### 64-bit integers: constructor, inline schemes, `$mul64`, `$flatten64` -/
+
+/-- the constructor (types.js:103-119) normalises ANY pair of integers to a canonical pair … -/
+theorem mk64_canon (s : Bool) (h l : Int) : Canon s (mk64 s h l) := by
+  cases s <;> simp only [Canon, mk64, toInt32, toUint32, if_true, if_false, Bool.false_eq_true] <;> (try split) <;> omega
+
+theorem add64_correct (s : Bool) (x y : W64) :
+    (scheme64Bin s .add x y).map toBV = some (toBV x + toBV y) := by
+  simp only [scheme64Bin, Option.map]; rw [toBV_mk64]
+  simp only [toBV, flatten64, ← BitVec.ofInt_add]
+  congr 1; apply ofInt64_congr; congr 1; omega
+
+theorem sub64_correct (s : Bool) (x y : W64) :
+    (scheme64Bin s .sub x y).map toBV = some (toBV x - toBV y) := by
+  simp only [scheme64Bin, Option.map]; rw [toBV_mk64]
+  simp only [toBV, flatten64, BitVec.sub_eq_add_neg, ← BitVec.ofInt_neg, ← BitVec.ofInt_add]
+  congr 1; apply ofInt64_congr; congr 1; omega
+
+theorem neg64_correct (s : Bool) (x : W64) : toBV (scheme64Un s .neg x) = - toBV x := by
+  simp only [scheme64Un]; rw [toBV_mk64]
+  simp only [toBV, flatten64, ← BitVec.ofInt_neg]
+  apply ofInt64_congr; congr 1; omega
+
+/-- the value a canonical pair denotes, as a Go value -/
+theorem valOf_toBV (s : Bool) (x : W64) (hx : Canon s x) : valOf s (toBV x) = flatten64 x := by
+  cases s <;> simp only [Canon, if_true, if_false, Bool.false_eq_true] at hx <;>
+    simp only [valOf, toBV, flatten64, BitVec.toInt_ofInt, BitVec.toNat_ofInt, Int.bmod_def, Nat.reducePow, Int.cast_ofNat_Int,
+      if_true, if_false, Bool.false_eq_true] <;> omega
+
+/-- `$flatten64`: for a canonical pair whose value has magnitude ≤ 2^53 the two intermediates are exact doubles:
+    `$high * 4294967296` is a 32-bit integer scaled by a power of two, and the sum is the value itself -/
+theorem flatten64_exact (s : Bool) (x : W64) (hx : Canon s x) (hv : -two53 ≤ valOf s (toBV x) ∧ valOf s (toBV x) ≤ two53) :
+    flatten64 x = valOf s (toBV x) ∧ (-two53 ≤ flatten64 x ∧ flatten64 x ≤ two53) ∧
+    (∃ k : Int, x.high * 4294967296 = k * 4294967296 ∧ -4294967296 < k ∧ k < 4294967296) := by
+  rw [valOf_toBV s x hx] at hv
+  refine ⟨(valOf_toBV s x hx).symm, hv, x.high, rfl, ?_⟩
+  cases s <;> simp only [Canon, if_true, if_false, Bool.false_eq_true] at hx <;> omega
+
+/-- … denoting `high * 2^32 + low` modulo 2^64 -/
+theorem mk64_value (s : Bool) (h l : Int) : toBV (mk64 s h l) = BitVec.ofInt 64 (h * 4294967296 + l) := toBV_mk64 s h l
+
+/-- `$mul64` (numeric.js:79-116): the 16-bit-limb product is the 64-bit wrap-around product, for all canonical operands,
+    and the result is canonical -/
+theorem mul64_correct (s : Bool) (x y : W64) (hx : Canon s x) (hy : Canon s y) :
+    toBV (mul64 s x y) = toBV x * toBV y ∧ Canon s (mul64 s x y) := by
+  refine ⟨?_, mk64_canon s _ _⟩
+  unfold mul64
+  simp only []
+  rw [toBV_mk64]
+  simp only [toBV, ← BitVec.ofInt_mul]
+  apply ofInt64_congr
+  exact mul64_words x y hx.2 hy.2
+
+/-- `scheme64Bin … .mul` is `$mul64` -/
+theorem mul64_scheme (s : Bool) (x y : W64) (hx : Canon s x) (hy : Canon s y) :
+    (scheme64Bin s .mul x y).map toBV = some (toBV x * toBV y) := by
+  simp only [scheme64Bin, Option.map, (mul64_correct s x y hx hy).1]
+
+/-- FULL-STRENGTH statements for the remaining 64-bit helpers (NOT claimed, not proved here; the model is tied to the
+    real helpers on the boundary grid, all shift counts 0..130 and random patterns, and compared with this spec) -/
+def div64_correct_full : Prop :=
+  ∀ (s : Bool) (x y : W64) (r : Bool), Canon s x → Canon s y →
+    (div64 s x y r).map toBV = specBin s (if r then .rem else .quo) (toBV x) (toBV y)
+
+def shift64_correct_full : Prop :=
+  ∀ (s : Bool) (op : ShOp) (x : W64) (n : Nat), Canon s x →
+    toBV (scheme64Shift s op x n) = specShift s op (toBV x) n
+
 end GV.Props.C06
